@@ -5,6 +5,8 @@ rsync -a --delete --exclude .git /repo/ $SCR/ || exit 3
 (cd $SCR && patch -p1 -s < $SEED/patch.diff) || { echo "PATCH-FAILED $SEED"; exit 3; }
 (cd $SCR && /venv/bin/python -m pytest -q -p no:cacheprovider auth/test/test_auth_utils.py 2>&1 | tail -1)
 for c in "$@"; do
-  VERIF_REPO=$SCR /verif/check $c 2>&1 | grep -E "VIOLATION|KNOWN-FINDING|INCONCL|tier=" | cut -c1-260 | head -8
+  VERIF_REPO=$SCR /verif/check $c > /tmp/seedrun_$c.log 2>&1
   echo "exit($c)=$?"
+  grep -E "VIOLATION|INCONCL|tier=" /tmp/seedrun_$c.log | cut -c1-260 | head -6
+  echo "known-finding lines: $(grep -c KNOWN-FINDING /tmp/seedrun_$c.log)"
 done
